@@ -280,9 +280,12 @@ def c10(tier, seed, wd, replay=None):
         run.sample({"roundtrip": {"call": r["c"], "original": {k: r["pre"][k] for k in ("kind", "ends", "vl", "members")}, "decor": r["pre"]["decor"][:2]}})
     run.exhaustive = False
     run.assumptions = ASSUME
+    mech = [] if run.extra.get("mechanism_binding_skipped") else [lambda c: c.startswith("mechanism:proto0")]
+    if not mech:
+        run.notes.append("mechanism binding (b) skipped: " + run.extra["mechanism_binding_skipped"])
     return run.finish(nontrivial_filter=lambda c: True,
-                      mandatory=[lambda c: c.startswith("roundtrip:fresh-interpreter") and "loadcache1" in c,
-                                 lambda c: c.startswith("mechanism:proto0"), lambda c: c.startswith("depth:chain"),
+                      mandatory=mech + [lambda c: c.startswith("roundtrip:fresh-interpreter") and "loadcache1" in c,
+                                 lambda c: c.startswith("depth:chain"),
                                  lambda c: c.startswith("roundtrip:same-process") and "dill" in c and "cache1" in c])
 
 
